@@ -163,21 +163,26 @@ def types(depth=2, leaves=None, collections=True, lambdas=False, big_maps=False,
 
 
 # ---- values ----------------------------------------------------------------------------------------
-def values(t, max_items=3):
+def values(t, max_items=3, ptrs=False):
+    """ptrs: big_map values may also be on-chain identifiers ("ptr", n), 0 included."""
     p = t["prim"]
     a = rv.targs(t)
     if p == "option":
-        return st.one_of(st.none(), values(a[0], max_items).map(lambda v: ("Some", v)))
+        return st.one_of(st.none(), values(a[0], max_items, ptrs).map(lambda v: ("Some", v)))
     if p == "or":
-        return st.one_of(values(a[0], max_items).map(lambda v: ("Left", v)), values(a[1], max_items).map(lambda v: ("Right", v)))
+        return st.one_of(values(a[0], max_items, ptrs).map(lambda v: ("Left", v)), values(a[1], max_items, ptrs).map(lambda v: ("Right", v)))
     if p == "pair":
-        return st.tuples(values(a[0], max_items), values(a[1], max_items))
+        return st.tuples(values(a[0], max_items, ptrs), values(a[1], max_items, ptrs))
     if p == "list":
-        return st.lists(values(a[0], max_items), max_size=max_items)
+        return st.lists(values(a[0], max_items, ptrs), max_size=max_items)
     if p == "set":
-        return st.lists(values(a[0], max_items), max_size=max_items + 1).map(lambda vs: _sorted_consistent(a[0], vs))
+        return st.lists(values(a[0], max_items, ptrs), max_size=max_items + 1).map(lambda vs: _sorted_consistent(a[0], vs))
+    if p == "big_map" and ptrs:
+        lit = values(t, max_items, False)
+        return st.one_of(lit, st.sampled_from([0, 0, 1, 2, 42, 2 ** 31 - 1]).map(lambda n: ("ptr", n)),
+                         st.integers(0, 10 ** 6).map(lambda n: ("ptr", n)))
     if p in ("map", "big_map"):
-        return st.lists(st.tuples(values(a[0], max_items), values(a[1], max_items)), max_size=max_items + 1).map(
+        return st.lists(st.tuples(values(a[0], max_items, ptrs), values(a[1], max_items, ptrs)), max_size=max_items + 1).map(
             lambda kv: _sorted_map(a[0], kv))
     if p == "lambda":
         return st.sampled_from(LAMBDA_BODIES)
